@@ -39,20 +39,19 @@ theorem flr_spec (num den : Nat) (hn : 0 < num) (hd : 0 < den) :
       _ = (2:ℚ) ^ ((a:Int) - b + 1) * 2^b := this.symm
       _ ≤ (2:ℚ) ^ ((a:Int) - b + 1) * den := by
             apply mul_le_mul_of_nonneg_left b1 (le_of_lt (zpow_pos two_pos _))
-  unfold floorLog2Ratio
-  simp only []
   -- the test decides whether 2^t ≤ num/den
-  have test : ∀ t : Int, t = (a:Int) - b →
-      ((if t ≥ 0 then decide (den * 2 ^ t.toNat ≤ num) else decide (den ≤ num * 2 ^ (-t).toNat)) = true
-        ↔ (2:ℚ)^t ≤ (num:ℚ)/den) := by
-    intro t _
+  have test : ((if (a:Int) - b ≥ 0 then decide (den * 2 ^ ((a:Int) - b).toNat ≤ num)
+        else decide (den ≤ num * 2 ^ (-((a:Int) - b)).toNat)) = true
+        ↔ (2:ℚ)^((a:Int) - b) ≤ (num:ℚ)/den) := by
+    generalize (a:Int) - b = t
     rw [le_div_iff₀ hdq]
     split
     · rename_i h
       have ht : ((t.toNat : Nat) : Int) = t := Int.toNat_of_nonneg h
       rw [decide_eq_true_iff]
       have : (2:ℚ)^t = ((2 ^ t.toNat : Nat) : ℚ) := by
-        rw [← ht]; push_cast; rw [zpow_natCast]; simp [Int.toNat_natCast]
+        conv_lhs => rw [← ht]
+        push_cast; rw [zpow_natCast]
       rw [this]
       constructor
       · intro hle; have : ((den * 2 ^ t.toNat : Nat) : ℚ) ≤ num := by exact_mod_cast hle
@@ -77,14 +76,17 @@ theorem flr_spec (num den : Nat) (hn : 0 < num) (hd : 0 < den) :
         have := mul_le_mul_of_nonneg_right hle (le_of_lt p2)
         have h3 : (den:ℚ) ≤ num * ((2 ^ (-t).toNat : Nat) : ℚ) := by nlinarith [e2]
         exact_mod_cast h3
-  have T := test ((a:Int) - b) rfl
-  split
-  · rename_i hge
-    have := T.mp hge
-    exact ⟨this, hi⟩
-  · rename_i hge
-    have hlt : ¬ ((2:ℚ)^((a:Int) - b) ≤ (num:ℚ)/den) := fun h => hge (T.mpr h)
-    push_neg at hlt
+  have hdef : floorLog2Ratio num den =
+      if (if (a:Int) - b ≥ 0 then decide (den * 2 ^ ((a:Int) - b).toNat ≤ num)
+        else decide (den ≤ num * 2 ^ (-((a:Int) - b)).toNat)) = true then (a:Int) - b else (a:Int) - b - 1 := rfl
+  rw [hdef]
+  by_cases hge : (if (a:Int) - b ≥ 0 then decide (den * 2 ^ ((a:Int) - b).toNat ≤ num)
+        else decide (den ≤ num * 2 ^ (-((a:Int) - b)).toNat)) = true
+  · rw [if_pos hge]
+    exact ⟨test.mp hge, hi⟩
+  · rw [if_neg hge]
+    have hlt : ¬ ((2:ℚ)^((a:Int) - b) ≤ (num:ℚ)/den) := fun h => hge (test.mpr h)
+    rw [not_le] at hlt
     refine ⟨le_of_lt lo, ?_⟩
     have : (a:Int) - b - 1 + 1 = (a:Int) - b := by ring
     rw [this]; exact hlt
